@@ -878,4 +878,32 @@ theorem sortElements_of_perm_strict (es sorted : List AcqElement) (hp : es.Perm 
   simp only [elemLe, decide_eq_true_eq, decide_eq_false_iff_not]
   omega
 
+/-! ## entry points with options -/
+
+/-- `Except.map` commutes with the binary-then-CSV fallback of `load` -/
+theorem load_map {γ δ : Type} (g : γ → δ) (b c : Except Err γ) :
+    (load b c).map g = load (b.map g) (c.map g) := by
+  cases b <;> rfl
+
+/-- the image part of a `load_binary` return value, whatever `full` is -/
+theorem loadBinaryCall_image {α : Type} (m : Meta) (files : List (DataFile α)) (masses : Option (List MassInfo))
+    (divide : List MassInfo → Image α → Image α) (o : CallOpts) :
+    (loadBinaryCall m files masses divide o).map Returned.image
+      = (loadBinary m files masses o.methodsV).map
+          (fun im => ((if o.cpsV then divide (masses.getD []) im else im).names,
+                      (if o.cpsV then divide (masses.getD []) im else im).img)) := by
+  unfold loadBinaryCall
+  cases loadBinary m files masses o.methodsV with
+  | error e => rfl
+  | ok im => cases h2 : o.fullV <;> rfl
+
+/-- the image part of a `load_csv` return value, whatever `full` is -/
+theorem loadCsvCall_image {α : Type} (m : Meta) (files : List (DataFile α)) (acq : Option (List Name)) (o : CallOpts) :
+    (loadCsvCall m files acq o).map Returned.image
+      = (loadCsv m files (if o.useAcqV then acq else none) o.methodsV).map (fun im => (im.names, im.img)) := by
+  unfold loadCsvCall
+  cases loadCsv m files (if o.useAcqV then acq else none) o.methodsV with
+  | error e => rfl
+  | ok im => cases h2 : o.fullV <;> rfl
+
 end Pew.Agilent
